@@ -171,13 +171,18 @@ func (h *history) buildReport() []PacketReport {
 // delete removes p from the history. It must be called while holding the lock
 // for writing.
 func (h *history) delete(p *PacketReport) {
-	if p.IsTWCC {
+	// A newer packet may have been sent with the same number (retransmission,
+	// sequence number wrap): only drop the mapping if it still names p.
+	if counter, ok := h.twccToCounter[p.TWCCSequenceNumber]; p.IsTWCC && ok && counter == p.SequenceNumber {
 		delete(h.twccToCounter, p.TWCCSequenceNumber)
 	}
-	delete(h.ssrcSeqNrToCounter, ssrcSequenceNumber{
+	key := ssrcSequenceNumber{
 		ssrc:           p.SSRC,
 		sequenceNumber: p.RTPSequenceNumber,
-	})
+	}
+	if counter, ok := h.ssrcSeqNrToCounter[key]; ok && counter == p.SequenceNumber {
+		delete(h.ssrcSeqNrToCounter, key)
+	}
 }
 
 // cleanBefore removes all entries in the interval [h.cleanBefore, counter).
